@@ -15,8 +15,8 @@ import json
 import vf
 
 
-def cfg(uris, n, guard, emit=True, props=False, view=False):
-    s = "CONSTANTS URIs = {%s}  MaxChanges = %d  Guard = \"%s\"\n" % (", ".join('"%s"' % u for u in uris), n, guard)
+def cfg(uris, n, guard, emit=True, props=False, view=False, split=False):
+    s = "CONSTANTS URIs = {%s}  MaxChanges = %d  Guard = \"%s\"  Split = %s\n" % (", ".join('"%s"' % u for u in uris), n, guard, "TRUE" if split else "FALSE")
     s += "SPECIFICATION Spec\n" if props else "INIT Init\nNEXT Next\n"
     if view:
         s += "VIEW view\n"
@@ -34,6 +34,10 @@ def model_check(run):
     r2 = run.tlc("Diag", cfg(["u1"], 2, "none", emit=False, view=True), workers=1, allow_violation=True)
     if r2.ok or "Invariant Converged is violated" not in r2.stdout:
         vf.die_tooling("Diag.tla with Guard=none does not violate Converged — the model is vacuous")
+    # a guard that is checked outside the critical section (decision and delivery as separate steps) must violate it too
+    r3 = run.tlc("Diag", cfg(["u1"], 2, "latest", emit=False, view=True, split=True), workers=1, allow_violation=True)
+    if r3.ok or "Invariant Converged is violated" not in r3.stdout:
+        vf.die_tooling("Diag.tla with Split=TRUE does not violate Converged — the model is vacuous")
 
 
 def gen(run):
@@ -60,6 +64,20 @@ def gen(run):
         if cap:
             scheds = run.rng.sample(scheds, cap)
         out += [("%du_%d" % (len(uris), n), c) for c in scheds]
+    # schedules in which the decision at the publish point and the delivery of the notification are separate events
+    for uris, n, cap in ([(["u1"], 2, None), (["u1"], 3, None), (["u1"], 4, 400), (["u1", "u2"], 3, 300)] if not thorough
+                         else [(["u1"], 2, None), (["u1"], 3, None), (["u1"], 4, None), (["u1", "u2"], 3, None), (["u1", "u2"], 4, 8000)]):
+        r = run.tlc("Diag", cfg(uris, n, "none", emit=True, split=True), workers=1, timeout=1800)
+        seen = set()
+        scheds = []
+        for c in r.json:
+            key = json.dumps(c["schedule"], sort_keys=True)
+            if key not in seen:
+                seen.add(key)
+                scheds.append(c)
+        if cap and len(scheds) > cap:
+            scheds = run.rng.sample(scheds, cap)
+        out += [("split%du_%d" % (len(uris), n), c) for c in scheds]
     return out
 
 
@@ -69,12 +87,12 @@ def nontrivial(sched):
     for ev in sched:
         if ev["e"] == "deliver":
             latest[ev["uri"]] = ev["ver"]
-        elif ev["ver"] < latest.get(ev["uri"], 0):
+        elif ev["e"] in ("publish", "check", "send") and ev["ver"] < latest.get(ev["uri"], 0):
             return True
     return False
 
 
-def evaluate(c, res):
+def evaluate(c, res, classes=False):
     if "panic" in res:
         return [("panic", "server panicked: " + res["panic"])]
     if res.get("stuck"):
@@ -84,9 +102,13 @@ def evaluate(c, res):
         if v == 0:
             continue
         got = res["last"].get(u)
-        if got != v:
+        want = v // 2 if classes else v
+        if got != want:
             order = [(p["uri"], p["ver"]) for p in res["pubs"]]
-            divs.append(("stale-final-publication", "document %s: last publication is version %s, latest content is version %d (publications in order: %s)" % (u, got, v, order)))
+            if classes:
+                divs.append(("stale-final-diagnostics", "document %s: the client's last diagnostics are those of class %s, the latest content (version %d) has class %d (publications in order: %s)" % (u, got, v, want, order)))
+            else:
+                divs.append(("stale-final-publication", "document %s: last publication is version %s, latest content is version %d (publications in order: %s)" % (u, got, v, order)))
     return divs
 
 
@@ -95,26 +117,32 @@ def main(args):
     if args.replay:
         with open(args.replay) as f:
             rp = json.load(f)
-        cases = [(rp["case"]["family"], rp["case"]["spec_case"], rp["case"]["workspace"])]
+        cases = [(rp["case"]["family"], rp["case"]["spec_case"], rp["case"]["workspace"], rp["case"].get("classes", False))]
     else:
         model_check(run)
         cases = []
-        for fam, c in gen(run):
-            cases.append((fam, c, False))
-            cases.append((fam, c, True))
-    hcases = [{"id": str(i), "schedule": c["schedule"], "workspace": ws} for i, (_, c, ws) in enumerate(cases)]
+        for k, (fam, c) in enumerate(gen(run)):
+            cases.append((fam, c, False, False))
+            cases.append((fam, c, True, k % 2 == 0))
+            cases.append((fam, c, False, True))
+    hcases = [{"id": str(i), "schedule": c["schedule"], "workspace": ws, "classes": cl} for i, (_, c, ws, cl) in enumerate(cases)]
     results = run.harness("diag", hcases, timeout=2400)
-    for (fam, c, ws), res in zip(cases, results):
-        run.count(vf.digest([c["schedule"], ws]), nontrivial(c["schedule"]))
-        for sig, what in evaluate(c, res):
-            run.diverge(sig, what, {"family": fam, "spec_case": c, "workspace": ws}, res)
+    blocked = 0
+    for (fam, c, ws, cl), res in zip(cases, results):
+        run.count(vf.digest([c["schedule"], ws, cl]), nontrivial(c["schedule"]))
+        blocked += 1 if res.get("blocked") else 0
+        for sig, what in evaluate(c, res, cl):
+            run.diverge(sig, what, {"family": fam, "spec_case": c, "workspace": ws, "classes": cl}, res)
+    run.extra["schedules_serialised_by_the_implementation"] = blocked
     run.traces_validated = len(cases)
-    nt = [c for _, c, _ in cases if nontrivial(c["schedule"])]
+    nt = [c for _, c, _, _ in cases if nontrivial(c["schedule"])]
     if nt:
         run.sample({"schedule": nt[0]["schedule"], "final": nt[0]["final"]})
         run.sample({"schedule": nt[-1]["schedule"], "final": nt[-1]["final"]})
     run.rule = ("every distinct sequence of deliver / publish-point events TLC reaches in Diag.tla for bursts of 2..4 changes on one document and 3..4 on two "
-                "(thorough: 5; all permutations of publish points for bursts <= 4), each replayed with and without a workspace root; "
+                "(thorough: 5; all permutations of publish points for bursts <= 4), plus schedules in which the decision at the publish point and the delivery of the "
+                "notification are separate events (the replay parks a job inside client.PublishDiagnostics), each replayed with and without a workspace root and with "
+                "injective and pairwise-equal version->diagnostics maps; "
                 "non-trivial = an older job reaches its publish point after a newer version of the same document was delivered")
     run.exhaustive = run.tier == "thorough" or True
     run.assumptions = ["a publish point is reached with the job's analysis complete (gates at pd.start / pd.publish / pd.done)",
@@ -124,5 +152,5 @@ def main(args):
 
 def confirm(run, d):
     c = d["case"]
-    res = run.harness("diag", [{"id": "0", "schedule": c["spec_case"]["schedule"], "workspace": c["workspace"]}])[0]
-    return any(sig == d["sig"] for sig, _ in evaluate(c["spec_case"], res))
+    res = run.harness("diag", [{"id": "0", "schedule": c["spec_case"]["schedule"], "workspace": c["workspace"], "classes": c.get("classes", False)}])[0]
+    return any(sig == d["sig"] for sig, _ in evaluate(c["spec_case"], res, c.get("classes", False)))
